@@ -383,6 +383,31 @@ def check_unit(vc_path, tier='quick', sentinel=True, build_dir=None, pid=None):
             r.lost_inserts[it['path']] = lost
             for k in [k for k in it['rules'] if k.startswith('LOST_INSERT:')]:
                 del it['rules'][k]
+    # cascade: a hint that only makes sense together with a lost one (it mentions a ghost name that a lost hint
+    # declares) is dropped as well -- e.g. `let ghost e0 = err;` anchored on a statement that is gone, and the assertion
+    # about e0 anchored on one that is still there.  Both count as lost hints of the function (baseline differential).
+    if r.lost_inserts:
+        by_path = {o['path']: o for o in u.items}
+        grew = False
+        for ipath, lost in list(r.lost_inserts.items()):
+            inserts = by_path.get(ipath, {}).get('inserts', [])
+            names = set()
+            for k in lost:
+                if k < len(inserts):
+                    names |= set(re.findall(r'let\s+ghost\s+(?:mut\s+)?(\w+)', inserts[k].get('text', '')))
+            dependents = [k for k, ins in enumerate(inserts) if k not in lost and ins.get('at') in ('before', 'after', 'arm_start', 'arm_end')
+                          and any(re.search(r'\b%s\b' % re.escape(n), ins.get('text', '')) for n in names)]
+            if dependents:
+                r.lost_inserts[ipath] = sorted(set(lost) | set(dependents))
+                grew = True
+        if grew:
+            vxout2, errs2 = run_vx(vc.job(u, sentinel=False, soft_inserts=True, drop_inserts=r.lost_inserts))
+            if vxout2 is not None and not errs2:
+                for it in vxout2['items']:
+                    for k in [k for k in it['rules'] if k.startswith('LOST_INSERT:')]:
+                        del it['rules'][k]
+                vxout = vxout2
+                r.vx = vxout
     path = os.path.join(bdir, 'unit.rs')
     text, ranges, labels = assemble(u, vxout, path)
     r.unit_file = path
